@@ -53,6 +53,14 @@ def upgradeMap (c : Cfg) (vc : VCfg V) (s : State V) (g : Nat) : State V :=
   { cov := initializePixels cOut (emptyCov cOut) (blockToCov c s).toList
     sp := (Array.range (s.sp.size * 2 ^ g)).map fun i => rd s.sp (i / 2 ^ g) vc.sentinel }
 
+/-- `degrade` below the coverage resolution first re-houses the map into one whose coverage
+    resolution is the target (`make_empty_like(self, nside_coverage=nside_out)` followed by
+    `out[valid_pixels] = self[valid_pixels]`, i.e. a `replace` update of an empty map). -/
+def rehouseMap (c cNew : Cfg) (vc : VCfg V) (s : State V) : Option (State V) :=
+  (validPixels c vc s).map fun vp =>
+    updatePix cNew vc (makeEmpty cNew vc []) none (fun _ (w : V) => w)
+      (vp.map fun p => (p.toNat, abs c vc s p.toNat)) false
+
 /-- the run of fine-pixel values below coarse pixel `q` (NEST order): dense view of the children -/
 def childrenVals (c : Cfg) (vc : VCfg V) (s : State V) (g : Nat) (q : Nat) : List V :=
   (List.range (2 ^ g)).map fun j => abs c vc s (q * 2 ^ g + j)
